@@ -26,6 +26,8 @@ type Engine struct {
 	tagNames  map[int]string
 	fnIndex   map[string]*ssa.Function
 	implCache map[string][]types.Type
+	boxedTo   map[string][]types.Type // concrete type -> interface types it is converted to somewhere in the repository
+	assertedI map[string]bool         // interface types that are the target of a type assertion / type switch
 	named     []*types.Named
 	loadSecs  float64
 }
@@ -86,6 +88,7 @@ func loadEngine(moduleDir string, patterns []string, overlay map[string][]byte, 
 		}
 	}
 	sort.Slice(e.named, func(i, j int) bool { return shortTypeFull(e.named[i]) < shortTypeFull(e.named[j]) })
+	e.scanBoxing()
 	return e, nil
 }
 
@@ -154,7 +157,24 @@ func (e *Engine) implementers(t types.Type) []types.Type {
 		return r
 	}
 	e.mu.Unlock()
-	var out []types.Type
+	var out0 []types.Type
+	defer func() {
+		// keep only types that can actually be the dynamic type behind this interface
+		var keep []types.Type
+		for _, ct := range out0 {
+			if e.canBeBehind(ct, it) {
+				keep = append(keep, ct)
+			}
+		}
+		if keep == nil {
+			keep = []types.Type{}
+		}
+		e.mu.Lock()
+		e.implCache[key] = keep
+		e.mu.Unlock()
+	}()
+	out := out0
+	defer func() { out0 = out }()
 	for _, n := range e.named {
 		if _, isIface := n.Underlying().(*types.Interface); isIface {
 			continue
@@ -291,6 +311,9 @@ func (x *VC) addObl(kind, label, pos, guard, cond string) *Oblig {
 	}
 	o := &Oblig{Name: name, Kind: kind, Pos: pos, Prefix: len(x.script), Guard: guard, Cond: cond, Expect: "unsat", Func: fnKeyShort(x.fn)}
 	x.obls = append(x.obls, o)
+	if len(x.obls) > 2500 {
+		x.refuse("more than 2500 obligations: callees need contracts instead of inlining")
+	}
 	return o
 }
 
@@ -346,6 +369,17 @@ func (e *Engine) targets(c *Contract) []*ssa.Function {
 	_ = it
 	var out []*ssa.Function
 	for _, ct := range e.implementers(o.Type()) {
+		if len(c.Targets) > 0 {
+			okT := false
+			for _, t := range c.Targets {
+				if shortType(ct) == t || strings.HasSuffix(shortType(ct), "."+strings.TrimPrefix(t, "*")) {
+					okT = true
+				}
+			}
+			if !okT {
+				continue
+			}
+		}
 		ms := e.prog.MethodSets.MethodSet(ct)
 		for i := 0; i < ms.Len(); i++ {
 			if ms.At(i).Obj().Name() == c.Name[dot+1:] {
@@ -376,6 +410,74 @@ func viaEmbeddedInterface(sel *types.Selection) bool {
 		}
 		t = su.Field(i).Type()
 		if _, isI := t.Underlying().(*types.Interface); isI {
+			return true
+		}
+	}
+	return false
+}
+
+// scanBoxing records every conversion of a concrete type to an interface type in repository code.
+func (e *Engine) scanBoxing() {
+	e.boxedTo = map[string][]types.Type{}
+	e.assertedI = map[string]bool{}
+	var visit func(f *ssa.Function)
+	seen := map[*ssa.Function]bool{}
+	visit = func(f *ssa.Function) {
+		if f == nil || seen[f] {
+			return
+		}
+		seen[f] = true
+		for _, b := range f.Blocks {
+			for _, ins := range b.Instrs {
+				switch i := ins.(type) {
+				case *ssa.MakeInterface:
+					k := shortTypeFull(i.X.Type())
+					e.boxedTo[k] = append(e.boxedTo[k], i.Type())
+				case *ssa.TypeAssert:
+					if _, ok := i.AssertedType.Underlying().(*types.Interface); ok {
+						e.assertedI[shortTypeFull(i.AssertedType)] = true
+					}
+				}
+			}
+		}
+		for _, a := range f.AnonFuncs {
+			visit(a)
+		}
+	}
+	for _, f := range e.fnIndex {
+		if f.Pkg != nil && strings.HasPrefix(f.Pkg.Pkg.Path(), repoPrefix) {
+			visit(f)
+		}
+	}
+}
+
+// canBeBehind: ct is converted somewhere to an interface that statically includes `it`
+// (so a value of static type `it` can hold it), or `it` is reached by type assertions and
+// ct is boxed at all.
+func (e *Engine) canBeBehind(ct types.Type, it *types.Interface) bool {
+	tos := e.boxedTo[shortTypeFull(ct)]
+	if len(tos) == 0 {
+		return false
+	}
+	for _, j := range tos {
+		ji, ok := j.Underlying().(*types.Interface)
+		if !ok {
+			continue
+		}
+		if types.Implements(ji, it) || ji == it { // J's method set includes I's
+			return true
+		}
+	}
+	for k := range e.assertedI {
+		_ = k
+	}
+	// reached only through a type assertion to an interface that includes `it`
+	for _, n := range e.named {
+		ni, ok := n.Underlying().(*types.Interface)
+		if !ok || !e.assertedI[shortTypeFull(n)] {
+			continue
+		}
+		if (types.Implements(ni, it) || ni == it) && (types.Implements(ct, ni)) {
 			return true
 		}
 	}
